@@ -2,7 +2,7 @@
 # Runs the repository suite with the verif guard OFF and compares against BASELINE.json stable_pass.
 export GOFLAGS=-mod=mod GOPROXY=off GOSUMDB=off GOTOOLCHAIN=local
 out=$(mktemp)
-(cd /repo && go test -mod=mod -json -vet=off -count=1 -timeout 25m ./... > "$out" 2>/dev/null)
+(cd ${REPO_DIR:-/repo} && go test -mod=mod -json -vet=off -count=1 -timeout 25m ./... > "$out" 2>/dev/null)
 python3 - "$out" <<'PY'
 import json,sys
 b=json.load(open('/root/.vp/BASELINE.json'))
